@@ -222,6 +222,8 @@ pub fn build_ext(h: &RHistory, ext: &Ext) -> Built {
     let mut pending = false;
     let mut perturbed_id = None;
     let mut twin_type: Option<usize> = None;
+    // names of the data removed since the last close (a new datum may take such a name at once)
+    let mut removed_names: Vec<String> = Vec::new();
     for req in &h.reqs {
         match req {
             RReq::Add { menu: m, uninit, name } => {
@@ -241,9 +243,14 @@ pub fn build_ext(h: &RHistory, ext: &Ext) -> Built {
                 let info = if idx >= MARKER_BASE { marker_info(idx - MARKER_BASE) } else { with_menu_type!(idx, T => HostTypeResolver.type_info::<T>()) };
                 let is_copy = idx < MARKER_BASE && MENU[idx].copy;
                 let pooled = name.map(|n| NAME_POOL[n as usize % NAME_POOL.len()]).filter(|n| b.get_current_datum_definition_by_name(n).is_none());
-                let field_name = match pooled {
-                    Some(n) => n.to_string(),
-                    None => format!("f{}", counter),
+                let retake = match name {
+                    Some(n) if n % 3 == 0 => removed_names.iter().find(|r| b.get_current_datum_definition_by_name(r).is_none()).cloned(),
+                    _ => None,
+                };
+                let field_name = match (retake, pooled) {
+                    (Some(r), _) => r,
+                    (None, Some(n)) => n.to_string(),
+                    (None, None) => format!("f{}", counter),
                 };
                 counter += 1;
                 let mut rec_info = info.clone();
@@ -301,13 +308,16 @@ pub fn build_ext(h: &RHistory, ext: &Ext) -> Built {
                 if cur.is_empty() {
                     continue;
                 }
-                b.remove_datum(cur[pick(*sel, cur.len())]).expect("valid remove");
+                let victim = cur[pick(*sel, cur.len())];
+                removed_names.push(b[victim].name().to_string());
+                b.remove_datum(victim).expect("valid remove");
                 pending = true;
             }
             RReq::Close { strat } => {
                 if closes >= MAX_VARIANTS {
                     continue;
                 }
+                removed_names.clear();
                 close_generic(&mut b, *strat);
                 closes += 1;
                 pending = false;
@@ -703,12 +713,25 @@ pub fn emit(out: &Path, histories: &[(usize, RHistory)], exclude: &[usize]) {
     let mut registry = String::new();
     let mut summary = vec![];
     for (k, h) in histories {
-        let built = build(h);
-        let code = generate(&built.def, &config_for(h.fragsel));
-        write_if_changed(&out.join(format!("def_{}.rs", k)), &code);
-        write_if_changed(&out.join(format!("glue_{}.rs", k)), &glue_for(&built, *k, h.fragsel, h));
         write_if_changed(&out.join(format!("hist_{}.json", k)), &serde_json::to_string(h).unwrap());
-        summary.push(serde_json::json!({"index": k, "fragsel": h.fragsel, "variants": built.def.variants().count(), "excluded": exclude.contains(k)}));
+        // a panic of the build-time library on one definition (C12 / C13 report those) must not
+        // prevent the other definitions from being examined
+        let generated = std::panic::catch_unwind(std::panic::AssertUnwindSafe(|| {
+            let built = build(h);
+            let code = generate(&built.def, &config_for(h.fragsel));
+            let glue = glue_for(&built, *k, h.fragsel, h);
+            (code, glue, built.def.variants().count())
+        }));
+        let (code, glue, n_variants) = match generated {
+            Ok(x) => x,
+            Err(e) => {
+                summary.push(serde_json::json!({"index": k, "fragsel": h.fragsel, "panicked": vcore::panic_message(e), "excluded": true}));
+                continue;
+            }
+        };
+        write_if_changed(&out.join(format!("def_{}.rs", k)), &code);
+        write_if_changed(&out.join(format!("glue_{}.rs", k)), &glue);
+        summary.push(serde_json::json!({"index": k, "fragsel": h.fragsel, "variants": n_variants, "excluded": exclude.contains(k)}));
         if exclude.contains(k) {
             continue;
         }
